@@ -611,13 +611,18 @@ fn impl_object_for_struct(ast: &DeriveInput, fields: &Fields) -> SynStream {
                 let #name = {
                     let primitive: Option<pdf::primitive::Primitive>
                         = dict.remove(#key);
+                    // read through Option: a null value, or a reference to an object that does not exist,
+                    // is the same as an absent entry
                     let x: #ty = match primitive {
-                        Some(primitive) => <#ty as pdf::object::Object>::from_primitive(primitive, resolve).map_err(|e|
+                        Some(primitive) => match <Option<#ty> as pdf::object::Object>::from_primitive(primitive, resolve).map_err(|e|
                             pdf::error::PdfError::FromPrimitive {
                                 typ: #typ,
                                 field: stringify!(#name),
                                 source: Box::new(e)
-                            })?,
+                            })? {
+                            Some(x) => x,
+                            None => #default,
+                        },
                         None => #default,
                     };
                     x
